@@ -1808,3 +1808,13 @@ Proof.
     + destruct (cancelled s c); inversion H; subst; simpl. rewrite upd_same. simpl; lia.
   - destruct (cp s c) eqn:E; try discriminate. inversion H; subst; simpl. rewrite upd_same. simpl; lia.
 Qed.
+
+(* dispatch never waits: with a message in hand the reader completes dispatch in one step, lost
+   connection or not (the Error message it may write for a blocked consumer is part of the step
+   and its result is discarded) *)
+Lemma dispatch_enabled : forall s m, panicked s = false -> proc s = PHave m ->
+  exists s', step s LDispatch = Some s' /\ proc s' = PRead.
+Proof.
+  intros s m Hp H. unfold step. rewrite Hp. simpl. rewrite H.
+  destruct (disp m (table s) s) as [tb s']. eexists; split; reflexivity.
+Qed.
